@@ -459,6 +459,7 @@ func runC05(c *kit.Ctx) {
 	// ---------- (3b) generated spellings of one path (c05_spell.go)
 	cleanup()
 	c05RunSpellings(c)
+	c05CountsUnderConcurrentStop(c)
 
 	// ---------- (4) idle-close decision per audience kind
 	type idleCase struct {
